@@ -752,8 +752,21 @@ int main(int argc, char** argv)
 				lb->bClose = flags & 2 ? 1 : 0;
 				lb->bReliable = flags & 8 ? 1 : 0;
 				lb->NameIndex = name;
+				// what the iterator yields: number of fragments, sum of their lengths, flags of first / last
+				int cnt = lb->num();
+				long sum = 0;
+				unsigned shape = 0;
+				for (int pos = 0; pos < cnt && pos < 100000; ++pos)
+				{
+					utcp_bunch& sub = lb->sub_bunch(pos);
+					sum += sub.DataBitsLen;
+					if (pos == 0)
+						shape |= (sub.bPartial ? 1 : 0) | (sub.bPartialInitial ? 2 : 0);
+					if (pos == cnt - 1)
+						shape |= (sub.bPartial ? 4 : 0) | (sub.bPartialFinal ? 8 : 0);
+				}
 				utcp::packet_id_range r = c->send_bunch(lb.get());
-				emit("ret %d %d", (int)r.first, (int)r.last);
+				emit("ret %d %d %d %ld %u", (int)r.first, (int)r.last, cnt, sum, shape);
 			}
 		}
 		else if (op == "flush")
